@@ -33,7 +33,7 @@ TOK = tables.TOK
 
 
 def T(mod, node):
-    return "".join(mod.text(node).split())
+    return mod.code(node)
 
 
 # ---------------------------------------------------------------------------------
